@@ -35,7 +35,9 @@ def run(c: Check):
             nfb += 1 if len(e["tried"]) == 2 else 0
             nerr += 1 if e["by"] == "error" else 0
             c.count_case((e["beh"], tuple(e["tried"]), e["by"], nq), nontrivial=len(e["tried"]) != 1 or e["by"] == "error")
-    if nq < 200 or nfb < 20 or nerr < 10:
+    # (judged on what was scripted and observed only when nothing was rejected: a change that, say, never
+    # uses a fallback is a verdict of the trace spec, not a vacuous run)
+    if not fails and (nq < 200 or nfb < 20 or nerr < 10):
         raise Undecided("vacuous: %d queries, %d with fallback, %d errors" % (nq, nfb, nerr))
     c.cov["rule"] = ("a case is one query inside a schedule of health changes, clock ticks and refresh rounds (queries also "
                      "between two probes of one refresh) on the real forward.Handler with scripted upstreams; non-trivial = "
